@@ -21,7 +21,8 @@ from concurrent.futures import ThreadPoolExecutor
 
 ROOT = os.path.dirname(os.path.dirname(os.path.abspath(__file__)))
 WORK = os.environ.get("ABYSS_MUT_WORK", "/tmp/abyss-mu")
-PROPS = ["C%02d" % i for i in range(1, 19)]
+# order: the checks with the broadest histories first; the search for one mutant stops at the first failing input
+PROPS = ["C01", "C05", "C06", "C04", "C02", "C17", "C14", "C03", "C16", "C07", "C10", "C11", "C13", "C15", "C18", "C08", "C09", "C12"]
 ENV = dict(os.environ, CARGO_NET_OFFLINE="true")
 
 SKIP_LINE = re.compile(r"^\s*(\"|//|#\[|use |pub use |mod |pub mod |debug_assert|assert|fn |pub fn |pub\(crate\) fn |pub\(super\) fn |impl|struct |pub struct |enum |trait |where|type |pub type |\*|/\*)")
@@ -188,6 +189,8 @@ def one(k, site, base_gen):
             if v:
                 d = [l for l in out.splitlines() if l.startswith("violation detail")]
                 hits[pid] = ("model" if "no-failing-input-found" in v[0] else "input", (d[0] if d else "")[:200])
+                if hits[pid][0] == "input":
+                    break
         res["t_checks"] = round(time.time() - t0)
         res["hits"] = hits
         res["harness"] = "input" if any(h[0] == "input" for h in hits.values()) else ("model" if hits else "none")
